@@ -10,6 +10,10 @@
 (*             constructed with the resolved values), evalkeep (parameters untouched by         *)
 (*             evaluation), outcome1/2 ("ok" or exception class), free*changed / free*finite    *)
 (*             (every free parameter moved away from its previous value and is finite).         *)
+(*  "fitspecial" the same life cycle with ONE parameter fixed at a special value             *)
+(*             (ParamRoutingOps!SpecialKinds: 0.0, integer 0, -0.0, negative, outside [-pi, pi], *)
+(*             integer-typed, far from the data), MLE; same clauses; deviation from a declared    *)
+(*             value of zero is absolute.                                                         *)
 (*  "condfix"  a ConditionalDistribution whose template has the non-empty proper subset F      *)
 (*             fixed and the other parameters dependent: fixed values for several scalar and    *)
 (*             vector conditioning values before (preok) and after (postok) ConditionalDistribution.fit, *)
@@ -31,7 +35,11 @@ FitClauses(r) ==
     <<"FixedStable", r.fdev1 <= FixedTolE15 /\ r.fdev2 <= FixedTolE15>>,
     <<"FreeEstimated",
         /\ (r.outcome1 = "ok" => r.free1changed /\ r.free1finite)
-        /\ (r.outcome2 = "ok" => r.free2changed /\ r.free2finite)>>
+        /\ (r.outcome2 = "ok" => r.free2changed /\ r.free2finite)>>,
+    (* ParamRoutingHist!InstancesShareNoState: the life cycle run at two positions of two       *)
+    (* shuffled sequential runs of ALL life cycles in one process reproduces the outcomes and    *)
+    (* the fitted parameters of its own run bit for bit                                          *)
+    <<"CaseOrderIndependent", r.ordsame>>
   >>
 
 CondFixClauses(r) ==
@@ -44,13 +52,16 @@ CondFixClauses(r) ==
 Idx(kind) == {i \in 1..Len(TraceLog) : TraceLog[i].kind = kind}
 FitSeen == {<<TraceLog[i].fam, TraceLog[i].F, TraceLog[i].fitm, TraceLog[i].data>> : i \in Idx("fit")}
 CondFixSeen == {<<TraceLog[i].fam, TraceLog[i].F>> : i \in Idx("condfix")}
+SpecialSeen == {<<TraceLog[i].fam, TraceLog[i].sname, TraceLog[i].special>> : i \in Idx("fitspecial")}
 SummaryClauses(r) ==
   <<
+    <<"SpecialCoverage", SpecialSeen = SpecialFitCases
+                         /\ Cardinality(Idx("fitspecial")) = r.reps * Cardinality(SpecialFitCases)>>,
     <<"FitCoverage", FitSeen = FitCases /\ Cardinality(Idx("fit")) = r.reps * Cardinality(FitCases)>>,
     <<"CondFixCoverage", CondFixSeen = CondFixCases>>
   >>
 
-Clauses(r) == CASE r.kind = "fit" -> FitClauses(r)
+Clauses(r) == CASE r.kind \in {"fit", "fitspecial"} -> FitClauses(r)
                 [] r.kind = "condfix" -> CondFixClauses(r)
                 [] r.kind = "summary" -> SummaryClauses(r)
 
